@@ -27,23 +27,33 @@ RULE = ("(a) Field.grad/div/curl/laplace on 1-4-d meshes with anisotropic dyadic
         "against the analytic operator paired through the mapping; curl(grad)=0 and div(curl)=0 on every fully valid mesh; "
         "invariance of div and curl under storage permutation + relabelling; vector-Laplacian pairing; commutation of all four "
         "with rotate90 for ordered axis pairs and k=1..3 (two random triples per case, all triples on a share of the cases), "
-        "with and without masks and periodic directions; relabelling transports the mapping position-wise; operands untouched. "
+        "with and without masks and periodic directions; the same commutation at object level (one call per case): explicit dyadic reference point "
+        "(also far outside the region), in-place and copying form for field and result independently, a mesh WITH a subregion of whole cells, random "
+        "k in -7..6 - values, validity and the mesh (region, n, bc, subregions) of the two results must agree, the in-place call must return its receiver; "
+        "relabelling transports the mapping position-wise; operands untouched. "
         "non-trivial = non-constant data and at least one operator accepted, or a meta/parts case")
 TRUSTED = ["harness/c05.py, harness/fieldio.py + driver JSON glue",
            "Field.diff modelled by DFV.C04.diff (tied to the code by C04's own correspondence run and re-exercised here through all four operators)",
            "np.stack / np.rot90 (index maps of Model/Transform.lean) / broadcasting / dict update semantics modelled by contract; cos/sin(k*pi/2) modelled by their exact values"]
 ASSUMPTIONS = ["exact-regime inputs (dyadic corners, cells 2^-k, small-integer polynomial coefficients): every binary64 operation on the code path of the four operators is exact, so equality is demanded",
                "component labels are not names of Field attributes (the hasattr test of the vdims setter is not modelled)",
-               "operands of + - << inside the operators live on the same mesh object (mesh equality is modelled as structural equality); meshes carry no subregions",
+               "operands of + - << inside the operators live on the same mesh object (mesh equality is modelled as structural equality); the meshes of the model-vs-code comparison carry no subregions (the object-level oracle adds one on the real code)",
                "findings D55 (vector Laplacian lost labels and mapping) and D56 (Mesh.rotate90 kept bc) are fixed in /repo; their witnesses are corpus cases that must pass"]
-UNPROVED = ["ops_commute_rot90 is proved for every integer k, every validity mask and every combination of open and periodic axes in the plane "
-            "(*_rot90_quarter, *_rot90_iter by induction over the number of quarter turns, *_rot90_all_k on the code-shaped one-go model rot90FldK, "
-            "rotate90_k_refines_turns_scalar/vector, *_congr). Restrictions of the statements: rotation about the region centre, copy form (an explicit "
-            "reference point and the in-place form are C12/C13's); meshes without subregions; axis names single characters or the two axes of the plane "
-            "periodic alike (TurnWf: that is when Mesh.rotate90 accepts the turned bc); grad for ndim <= 4 (the positional default labels are a fixed table); "
-            "vector fields whose mapping pairs the two axes of the plane with two different components (div / curl: one-to-one onto the axes)",
+UNPROVED = ["ops_commute_rot90 is proved for every integer k, every validity mask, every mesh dimension (grad: the general rule of the default labels, "
+            "v0..v(n-1) pairwise different by injectivity of the decimal representation), every combination of open and periodic axes in the plane, "
+            "ANY reference point, the in-place and the copying form, and meshes WITH subregions (*_rot90_quarter, *_rot90_iter, *_rot90_all_k on rot90FldK; "
+            "*_rotate90_obj on the shared object-level model T.rotate90F of C12/C13, through rotate90_obj_refines_scalar/vector and *_congr; values, validity "
+            "and the mesh incl. subregions of the two results). What remains hypothesis: (i) TurnWf for planes with a periodic axis - it holds automatically "
+            "when neither axis of the plane is periodic, whatever the names (turnWf_of_open_plane, turnWf_of_no_bc), and it is sharp: turnWf_needed "
+            "replays open finding D57 inside the model (2 vs 10); (ii) on meshes WITH subregions the acceptance of the turn of the operand (the mesh "
+            "constructor re-validates the turned subregions - C14's property); without subregions acceptance is proved for every reference point "
+            "(rotate90_obj_accepts_scalar/vector); (iii) object level, vector fields: one-to-one mapping (OneToOne) - the shared model reads the FIRST key "
+            "mapped onto an axis, the code's _r_dim_mapping the LAST; they coincide exactly for one-to-one mappings (rDim_eq_rDimLast); (iv) scalar fields "
+            "are plain (no manual label) in the *_defined / *_iter / *_all_k / *_obj theorems",
             "div_perm / curl_perm are proved for a relocation pi given with its inverse (any bijection of the component positions), any new labels, the mapping "
-            "carried along; the statement fixes how g is obtained from f (same mesh, validity, values relocated), it does not construct g"]
+            "carried along; the statement fixes how g is obtained from f (same mesh, validity, values relocated), it does not construct g",
+            "binary64 rounding of the operators (curl(grad)=0 / div(curl)=0 'to rounding', cos/sin(k*pi/2) in Field.rotate90) is covered by the tolerance regime of "
+            "the correspondence run, not by theorems (the identities are proved exactly over the rationals)"]
 BUDGET = {"quick": 120, "thorough": 1200}
 
 DIMPOOL = ["x", "y", "z", "a", "b", "c", "u", "v", "w", "t", "yy", "pq"]
@@ -103,6 +113,12 @@ def gen_mesh(rng, exact=True, ndim=None, min_n=1, nmax=5, max_cells=150, bc_prob
     pmin = [Fraction(rng.randint(-24, 24), 2 ** rng.randint(0, 2)) for _ in range(ndim)]
     pmax = [a + k * c for a, k, c in zip(pmin, n, cell)]
     dims = rng.sample(DIMPOOL, ndim) if rng.random() < rename else None
+    if dims is not None and ndim in (2, 3) and rng.random() < 0.2:
+        # the default names in another order: default component labels x, y(, z) of results then spell axis names
+        # that are NOT the axes the components lie along
+        dims = ["x", "y", "z"][:ndim]
+        while dims == ["x", "y", "z"][:ndim]:
+            rng.shuffle(dims)
     dd = dims or (["x", "y", "z"][:ndim] if ndim <= 3 else [f"x{i}" for i in range(ndim)])
     bc = ""
     if rng.random() < bc_prob and all(len(d) == 1 for d in dd):
@@ -110,6 +126,8 @@ def gen_mesh(rng, exact=True, ndim=None, min_n=1, nmax=5, max_cells=150, bc_prob
     elif rng.random() < bc_prob / 3 and any(len(d) == 1 for d in dd):
         # periodic directions next to axes with multi-character names (bc can only name single-character axes)
         bc = "".join(d for d in dd if len(d) == 1 and rng.random() < 0.7)
+    if rng.random() < 0.12:
+        dims, bc = fieldio.word_dims(rng, ndim, pool=DIMPOOL)
     # corners given in random order (p1/p2 need not be pmin/pmax)
     flip = [rng.random() < 0.3 for _ in range(ndim)]
     p1 = [float(b if f else a) for a, b, f in zip(pmin, pmax, flip)]
@@ -479,6 +497,81 @@ def check_rot90(case, f, res, rng, tier, scale, fail):
                 fail(f"{tag} validity of {op}(rotate90(f)) differs from rotate90({op}(f))")
 
 
+def check_rot90_obj(case, f, res, rng, fail):
+    """object-level commutation (the `*_rotate90_obj` theorems) on the real code: an explicit reference point (dyadic, also far
+    outside the region), the in-place form, a mesh WITH a subregion made of whole cells, a random integer k; compared are values,
+    validity and the mesh of the two results (region, n, bc, subregions).  The turn of the operand is a premise (the mesh constructor
+    re-validates the turned subregion): when the code refuses it there is nothing to compare."""
+    dims = list(f.mesh.region.dims)
+    if len(dims) < 2:
+        return
+    pr = pairing(f)
+    if f.nvdim > 1 and (pr is None or sorted(x for x in pr if x is not None) != list(range(len(dims))) or len(pr) != len(dims)):
+        return
+    a, b = rng.sample(dims, 2)
+    k = rng.choice([-7, -5, -3, -2, -1, 1, 2, 3, 5, 6])
+    ctr = [float(x) for x in f.mesh.region.centre]
+    ref = rng.choice([None, [c + rng.choice([-1, 1]) * rng.choice([0.25, 0.5, 1.0, 3.0, 64.0]) for c in ctr]])
+    inpl_f, inpl_r = rng.random() < 0.5, rng.random() < 0.5
+    # a subregion of whole cells: cells [lo, hi) per axis
+    n = [int(x) for x in f.mesh.n]
+    pmin = [float(x) for x in f.mesh.region.pmin]
+    cell = [float(x) for x in f.mesh.cell]
+    lo = [rng.randrange(0, m) for m in n]
+    hi = [rng.randint(l + 1, m) for l, m in zip(lo, n)]
+    sub = attempt(lambda: df.Region(p1=[p + l * c for p, l, c in zip(pmin, lo, cell)], p2=[p + h * c for p, h, c in zip(pmin, hi, cell)],
+                                    dims=dims, units=list(f.mesh.region.units)))
+    kw = dict(subregions={"s": sub}) if (not is_err(sub) and rng.random() < 0.8) else {}
+
+    def clone(g):
+        m = df.Mesh(region=df.Region(p1=g.mesh.region.pmin, p2=g.mesh.region.pmax, dims=dims, units=list(g.mesh.region.units)),
+                    n=g.mesh.n, bc=g.mesh.bc, **kw)
+        fk = {}
+        if g.vdims is not None:
+            fk["vdims"] = list(g.vdims)
+        return df.Field(m, nvdim=g.nvdim, value=g.array.copy(), valid=g.valid.copy(), vdim_mapping=dict(g.vdim_mapping), **fk)
+
+    f1 = attempt(lambda: clone(f))
+    if is_err(f1):
+        return
+    recv = f1
+    fr = attempt(lambda: recv.rotate90(a, b, k=k, reference_point=ref, inplace=inpl_f))
+    if is_err(fr):
+        return
+    tagf = f"rotate90({a},{b},k={k},ref={ref},inplace={inpl_f}/{inpl_r},subregions={bool(kw)})"
+    if inpl_f and fr is not recv:
+        fail(f"{tagf}: the in-place turn did not return the receiver")
+    rtag = "rot-obj:" + ("ref" if ref is not None else "centre") + ("+sub" if kw else "") + ("+inplace" if inpl_f or inpl_r else "")
+    for op in OPS:
+        if is_err(res[op]):
+            continue
+        base = attempt(lambda: getattr(clone(f), op))
+        if is_err(base):
+            fail(f"{tagf} {op}: refused on the same field with subregions ({base[1]})")
+            continue
+        A = attempt(lambda: getattr(fr, op))
+        B = attempt(lambda: base.rotate90(a, b, k=k, reference_point=ref, inplace=inpl_r))
+        if is_err(A):
+            fail(f"{tagf} {op}: {op} of the turned field refused ({A[1]})")
+            continue
+        if is_err(B):
+            fail(f"{tagf} {op}: the same turn refused the result of {op} ({B[1]})")
+            continue
+        tol = 1e-9 * (float(np.max(np.abs(B.array))) + float(np.max(np.abs(A.array))) + noise(f))
+        if A.array.shape != B.array.shape or not np.all(np.abs(A.array - B.array) <= tol):
+            fail(f"{tagf} {op}: {op}(rotate90(f)) differs from rotate90({op}(f)); bc={f.mesh.bc!r}, mapping={f.vdim_mapping}, "
+                 f"max difference {float(np.max(np.abs(A.array - B.array))) if A.array.shape == B.array.shape else 'shape'}")
+        elif not np.array_equal(A.valid, B.valid):
+            fail(f"{tagf} {op}: validity of {op}(rotate90(f)) differs from rotate90({op}(f))")
+        elif not (np.array_equal(A.mesh.n, B.mesh.n) and A.mesh.bc == B.mesh.bc
+                  and np.array_equal(A.mesh.region.pmin, B.mesh.region.pmin) and np.array_equal(A.mesh.region.pmax, B.mesh.region.pmax)
+                  and sorted(A.mesh.subregions) == sorted(B.mesh.subregions)
+                  and all(np.array_equal(A.mesh.subregions[s_].pmin, B.mesh.subregions[s_].pmin)
+                          and np.array_equal(A.mesh.subregions[s_].pmax, B.mesh.subregions[s_].pmax) for s_ in A.mesh.subregions)):
+            fail(f"{tagf} {op}: the two results live on different meshes (region / n / bc / subregions)")
+    return rtag
+
+
 def run_ops(case, obs):
     rng = random.Random(case["sub"])
     fail = obs["oracle"].append
@@ -511,6 +604,7 @@ def run_ops(case, obs):
     check_permutation(case, f, res, rng, fail)
     check_laplace_pairing(case, f, res, fail)
     check_rot90(case, f, res, rng, "all" if case.get("allrot") else "two", scale, fail)
+    rtag = check_rot90_obj(case, f, res, rng, fail)
     if not (np.array_equal(snap[0], f.array) and np.array_equal(snap[1], f.valid)
             and snap[2] == (list(f.vdims) if f.vdims else None) and snap[3] == dict(f.vdim_mapping)):
         fail("an operator modified its operand")
@@ -521,6 +615,8 @@ def run_ops(case, obs):
                     "regime:" + ("exact" if case["exact"] else "tolerance"),
                     "dims:" + ("renamed" if ms["dims"] else "default"),
                     "accepted:" + "".join(op[0] for op in OPS if not is_err(res[op]))]
+    if rtag:
+        obs["tags"].append(rtag)
     if exact_applies:
         obs["tags"].append("oracle:polynomial-exactness")
     obs["nontrivial"] = fs["deg"] >= 1 and any(not is_err(res[op]) for op in OPS)
@@ -797,11 +893,11 @@ def known(case, text):
     # both witnesses as regression cases and nothing is excused any more.
     # D57 (open): the bc string cannot follow an odd quarter turn that exchanges a periodic axis with an axis whose
     # name has several characters; only that class is excused.
-    m = re.match(r"rot90\(([^,]+),([^,]+),k=(-?\d+)\)", text)
+    m = re.match(r"rot(?:90|ate90)\(([^,]+),([^,]+),k=(-?\d+)[,)]", text)
     bc = (case.get("mesh") or {}).get("bc") or ""
     if m and bc and int(m.group(3)) % 2 == 1:
         a, b = m.group(1), m.group(2)
-        if (a in bc or b in bc) and (len(a) > 1 or len(b) > 1):
+        if (a in bc or b in bc) and (len(a) > 1 or len(b) > 1 or a != a.lower() or b != b.lower()):
             return "D57"
     return None
 
